@@ -367,6 +367,29 @@ def c02_probes():
     return out
 
 
+def exc_barrier_probes():
+    """a task of the set throws while ANOTHER task of the set, scheduled before the wait, is in the middle of its body on a worker (its body
+    contains a scheduling call, so it can be held there): wait() must not return -- normally or by rethrowing -- before that body has ended"""
+    import random
+    out = []
+    for conc, heavy in ((0, 0), (1, 0), (1, 1)):
+        for variant in range(2):
+            slow = ('s', 0, 1, 0, [('s', 0, 1, 0, []), ('s', 0, 1, 0, [])])
+            thrower = ('s', 0, 1, 0, [('t',)])
+            t0 = [slow, thrower, ('w', 0)] if variant == 0 else [thrower, slow, ('k',), ('w', 0)]
+            threads = [(0, 0, t0), (1, 0, [('k',)] * 4)]
+            for j in range(12):
+                rr = random.Random(9100 + 100 * conc + 10 * heavy + 1000 * variant + j)
+                if j < 4:      # directed: T0 submits both, the worker gets into the slow body, T0 waits (helps: runs the thrower), the worker finishes last
+                    sched = [0] * (6 + j) + [1] * (5 + j) + [0] * 40 + [1] * 60
+                else:
+                    sched = []
+                    while len(sched) < 120:
+                        sched += [rr.randrange(0, 2)] * rr.randint(1, 9)
+                out.append({'budget': 120, 'nthr': 1, 'plf': 32, 'wr': 0, 'sets': [(conc, heavy, 4, -1, 0)], 'threads': threads, 'sched': sched[:120]})
+    return out
+
+
 def depthcap_probes():
     """a caller already kMaxInlineDepth deep submits to an overloaded set (outstanding above every task-set threshold): the functor must be queued, never dropped"""
     out = []
